@@ -535,10 +535,14 @@ def rec_enc(node, src):
                         and up(dv.value.args[0].left) == "field.raw_value"):
                     raise Unrec("time raw encode: " + b[1])
                 res = const_lit(dv.value.args[0].right, src)
-                m = re.fullmatch(r"field_value = encode_time\(field\.value, (\d+)(, True)?\)", o[1])
-                if not m:
+                ev = st.orelse[1]
+                if not (isinstance(ev, ast.Assign) and up(ev.targets[0]) == "field_value" and is_call(ev.value, "encode_time", 4)
+                        and up(ev.value.args[0]) == "field.value" and isinstance(ev.value.args[1], ast.Constant) and type(ev.value.args[1].value) is int
+                        and isinstance(ev.value.args[2], ast.Constant) and type(ev.value.args[2].value) is bool):
                     raise Unrec("time value encode: " + o[1])
-                kind = ("time", res, int(m.group(1)), bool(m.group(2)))
+                if const_lit(ev.value.args[3], src) != res:
+                    raise Unrec("time value encode: resolution differs from the raw branch: " + o[1])
+                kind = ("time", res, ev.value.args[1].value, ev.value.args[2].value)
             else:
                 raise Unrec("raw/value branch: " + u[:200])
             i += 1
